@@ -202,6 +202,46 @@ def check_preempted(ctx, pre, iface, app, req_a, req_b, where, case, mask=VOLATI
                 return
 
 
+def check_preempted_calls(ctx, pre, fa, fb, where, case, max_points=40):
+    """two plain CALLS of the library (not requests) made by two threads: fb runs completely, in another thread, between two
+    library lines of fa - for every line fa executes (or a spread). fa / fb return something comparable (and catch what they expect);
+    each must return what it returns alone. -> number of switch points explored"""
+    alone_a, alone_b = fa(), fb()
+    if pre.run(fa) != alone_a:
+        ctx.count("pre-emption:call-not-deterministic(skipped)")
+        return 0
+    n = pre.count
+    points = range(1, n + 1) if n <= max_points else sorted({1 + (i * (n - 1)) // (max_points - 1) for i in range(max_points)})
+    done = 0
+    for k in points:
+        seen = {}
+
+        def fire(fname, line):
+            seen["at"] = f"{fname}:{line}"
+            try:
+                seen["b"], seen["stuck"] = _in_thread(fb)
+            except BaseException as e:  # noqa
+                seen["b"], seen["stuck"] = ("raised", type(e).__name__, str(e)[:120]), None
+        try:
+            got_a = pre.run(fa, k, fire)
+        except BaseException as e:  # noqa
+            got_a = ("raised", type(e).__name__, str(e)[:120])
+        if "at" not in seen:
+            continue
+        done += 1
+        ctx.mon("pre-empted-between-library-lines")
+        ctx.extra.setdefault("preemption_switch_locations", set()).add(seen["at"])
+        if seen.get("stuck"):
+            ctx.count("pre-emption:other-call-waits-for-the-pre-empted-one(not explored)")
+            continue
+        for who, alone, got in (("pre-empted", alone_a, got_a), ("pre-empting", alone_b, seen["b"])):
+            if alone != got:
+                ctx.violation(f"pre-empted|{where}|{who}-call-differs-from-alone", dict(case, switch_after_library_line=k, switch_at=seen["at"]),
+                              f"thread switch at {seen['at']}: alone {str(alone)[:160]!r}; now {str(got)[:160]!r}")
+                return done
+    return done
+
+
 class preemptor:
     """with inflight.preemptor() as pre: ...  (the LINE monitoring is on only inside the block)"""
 
